@@ -35,6 +35,28 @@ def reachable_adts(F, roots):
     return seen
 
 
+def shared_location_sites(F, fn):
+    """accesses of statics / thread-locals in one body: [(kind, line, description, construct)]"""
+    out = []
+    p = fn.path
+    for bi in sorted(fn.cfg.reachable):
+        blk = fn.blocks[bi]
+        for s in blk["stmts"]:
+            if s["k"] != "assign":
+                continue
+            txt = str(s["rv"])
+            if "'static_ref'" in txt or "'tls'" in txt:
+                out.append(("static-access", s["line"], f"{p} reads or writes a static / thread-local: state shared by all "
+                            f"evaluators in the process", "static access"))
+        t = blk["term"]
+        if t["k"] == "call" and (I.callee_path(t).startswith("std::thread::LocalKey") or "LocalKey<" in str(t["args"])):
+            out.append(("thread-local", blk["line"], f"{p} uses a thread_local! key: per-thread state outlives and is shared "
+                        f"between evaluators on one thread", "LocalKey access"))
+        if t["k"] == "call" and "'static_ref'" in str(t["args"]):
+            out.append(("static-access", blk["line"], f"{p} passes a static to a call", "static access"))
+    return out
+
+
 def run(ctx):
     ctx.explanation = ("static, for every schedule: bodies reachable from FlopExhaustiveEvaluator::{new,scope,into_iter} and "
                        "Iterator::next (resolved call graph) contain no static/thread-local access and no user unsafe; every "
@@ -53,23 +75,9 @@ def run(ctx):
     n_bad = 0
     for p in sorted(M.reach):
         fn = F.fns[p]
-        for bi in sorted(fn.cfg.reachable):
-            blk = fn.blocks[bi]
-            items = [(s["rv"], s["line"]) for s in blk["stmts"] if s["k"] == "assign"]
-            for rv, line in items:
-                txt = str(rv)
-                if "'static_ref'" in txt or "'tls'" in txt:
-                    n_bad += 1
-                    ctx.violation(rule, f"{p}|static-access", f"{p} reads or writes a static / thread-local: state shared by all "
-                                  f"evaluators in the process", fn=p, file=fn.file, line=line, construct="static access")
-            t = blk["term"]
-            if t["k"] == "call" and (I.callee_path(t).startswith("std::thread::LocalKey") or "LocalKey<" in str(t["args"])):
-                n_bad += 1
-                ctx.violation(rule, f"{p}|thread-local", f"{p} uses a thread_local! key: per-thread state outlives and is shared "
-                              f"between evaluators on one thread", fn=p, file=fn.file, line=blk["line"], construct="LocalKey access")
-            if t["k"] == "call" and "'static_ref'" in str(t["args"]):
-                n_bad += 1
-                ctx.violation(rule, f"{p}|static-access", f"{p} passes a static to a call", fn=p, file=fn.file, line=blk["line"])
+        for (kind, line, desc, construct) in shared_location_sites(F, fn):
+            n_bad += 1
+            ctx.violation(rule, f"{p}|{kind}", desc, fn=p, file=fn.file, line=line, construct=construct)
     for u in F.unsafe_sites:
         if u["kind"] == "unsafe_block" and u.get("user") and not u["span"].get("exp") and u["fn"] in M.reach:
             n_bad += 1
@@ -173,6 +181,8 @@ def run(ctx):
     }
 
     if ctx.tier == "thorough":
+        from rules import selftest
+        selftest.run(ctx, ["shared-location"])
         Fa = ctx.facts("all")
         ctx.extra["all_targets_census"] = {
             "targets": sorted(Fa.by_target),
